@@ -39,6 +39,10 @@ const ED25519_SPKI_OID: &[u8] = &[0x2b, 0x65, 0x70];
 /// 1.2.840.10045.2.1 ecPublicKey (Elliptic Curve public key cryptography)
 const ECC_SPKI_OID: &[u8] = &[0x2a, 0x86, 0x48, 0xce, 0x3d, 0x02, 0x01];
 
+/// 1.2.840.10045.3.1.7 secp256r1 (NIST P-256), the only supported curve
+const SECP256R1_OID: &[u8] =
+    &[0x2a, 0x86, 0x48, 0xce, 0x3d, 0x03, 0x01, 0x07];
+
 /// The length of an ed25519 private key in bytes
 const ED25519_PRIVATE_KEY_LENGTH: usize = 32;
 
@@ -773,12 +777,26 @@ impl PublicKey {
                     let typ = KeyType::from_oid(typ.as_slice_less_safe())
                         .map_err(|_| derp::Error::WrongValue)?;
 
-                    if typ == KeyType::Ecdsa {
-                        let _alg_oid =
-                            derp::expect_tag_and_get_value(input, Tag::Oid)?;
-                    } else {
-                        // for RSA / ed25519 this is null, so don't both parsing it
-                        derp::read_null(input)?;
+                    match typ {
+                        // RFC 5480: the parameters name the curve
+                        KeyType::Ecdsa => {
+                            let curve = derp::expect_tag_and_get_value(
+                                input,
+                                Tag::Oid,
+                            )?;
+                            if curve.as_slice_less_safe() != SECP256R1_OID {
+                                return Err(derp::Error::WrongValue);
+                            }
+                        }
+                        // RFC 8410: the parameters are absent (files
+                        // carrying an explicit NULL are tolerated)
+                        KeyType::Ed25519 => {
+                            if !input.at_end() {
+                                derp::read_null(input)?;
+                            }
+                        }
+                        // RFC 3279: the parameters are NULL
+                        _ => derp::read_null(input)?,
                     }
                     Ok(typ)
                 })?;
@@ -1180,7 +1198,15 @@ fn write_spki(
             der.sequence(|der| match key_type.as_oid().ok() {
                 Some(tag) => {
                     der.element(Tag::Oid, tag)?;
-                    der.null()
+                    // AlgorithmIdentifier parameters as the respective
+                    // standards prescribe (see `from_spki`)
+                    match key_type {
+                        KeyType::Ed25519 => Ok(()),
+                        KeyType::Ecdsa => {
+                            der.element(Tag::Oid, SECP256R1_OID)
+                        }
+                        _ => der.null(),
+                    }
                 }
                 None => Err(derp::Error::WrongValue),
             })?;
